@@ -28,7 +28,7 @@ Print Assumptions retained_last_write.
 
 (** Get(filter) lists an entry iff it is the stored, added (i.e. last write non-empty) entry
     of a topic the filter matches, and lists no topic twice. *)
-Theorem get_exactly_matching : ∀ d f r, flat_ok ret_key (d_ret d) →
+Theorem get_exactly_matching : ∀ d f r, flat_ok ret_key (d_ret d) → filter_ok (levels f) = true →
   r ∈ ret_get d f ↔ abs_ret (d_ret d) (ret_key r) = Some r ∧ ret_added r = true ∧ mmatch (levels f) (levels (ret_key r)) = true.
 Proof. exact ret_get_member. Qed.
 Print Assumptions get_exactly_matching.
